@@ -71,17 +71,18 @@ def handleH (st : St) (n : Nat) (toks : List String) : Result := Id.run do
     ok := false
     outs := outs ++ [s!"DIVERGE {n} H field=rbody model={hx rF.body} impl={hx irbody}"]
   -- state after the request
-  let mpost : List (Bytes × Opt) := match oF with
-    | some o => match o.set, o.err with
-      | some v, .none =>
-        -- which log: the one `serve` derived from the body
-        match Bastion.parseBody body with
-        | some (_, _, cp) => match B.cut B.nl cp with
-          | some (first, _) => states.map (fun p => if p.1 == Cp.logID first then (p.1, Opt.val v) else p)
-          | none => states
-        | none => states
-      | _, _ => states
-    | none => states
+  -- state after the request: `Bastion.post`, the step function of the session that `C10_session_is_witness_run`
+  -- and `C01_append_only_through_endpoint` are about (behind the connection wiring a body over the cap never
+  -- reaches the handler's parser)
+  let mstore : Wit.Store :=
+    let cfg := mkCfg st s false
+    let h : Bastion.HCfg := { logs := s.logs.map (fun l => (l.id, l.origin)), witV := mkVerifier st.vtab false wsc.name wsc.hash wvVid }
+    if (get "e2e").getD "0" == "1" && Facts.maxBodyBytes != 0 && body.length > Facts.maxBodyBytes then storeOf states
+    else (Bastion.post cfg h (storeOf states) (allow, body)).1
+  let mpost : List (Bytes × Opt) := states.map (fun p => match mstore.get p.1 with
+    | some v => (p.1, Opt.val v)
+    | none => p)
+  let _ := oF
   if statesShow mpost != statesShow post && !(nomodel && istatus == 200) then
     ok := false
     outs := outs ++ [s!"DIVERGE {n} H field=post model={statesShow mpost} impl={statesShow post}"]
